@@ -1380,6 +1380,10 @@ func valueFromColumnKey(info *mapper.Info, columnKey model.ColumnKey) (interface
 	if v.Kind() == reflect.Ptr && !v.IsNil() {
 		val = v.Elem().Interface()
 	}
+	// zero and negative zero are the same real
+	if f, ok := val.(float64); ok && f == 0 {
+		val = float64(0)
+	}
 	// a set or a map cannot be the key of a Go map, and its elements come in
 	// no particular order: index it by a canonical rendering of its contents
 	switch v.Kind() {
@@ -1394,6 +1398,9 @@ func valueFromColumnKey(info *mapper.Info, columnKey model.ColumnKey) (interface
 // elements differ: sorted, length-prefixed elements.
 func canonicalIndexValue(v reflect.Value) string {
 	item := func(x interface{}) string {
+		if f, ok := x.(float64); ok && f == 0 {
+			x = float64(0)
+		}
 		s := fmt.Sprintf("%v", x)
 		return fmt.Sprintf("%d:%s", len(s), s)
 	}
